@@ -466,6 +466,15 @@ example :
       | .ok res => res.slots.resp.code
       | .error _ => 0) = [200, 405, 404] := by decide +kernel
 
+/-- why `app_404_iff_no_rule` asks for a transparent application: a callback may answer 404 itself
+(`abort(404)`), and then the status is 404 although a rule matches — the equivalence is about what
+the ROUTER contributes, which `app_404_405_split` states for every application -/
+example :
+    (match App.serveW { nvPlainCfg with handlers := fun _ _ => { effs := [], res := .raisesResp (Wsgi.mkError 404 "gone".toList) } }
+        (Router.run nvPlainCfg.upper nvOps) { nvReq with verb := "GET".toList, rawPath := [47, 97, 47, 98] } with
+     | .ok res => res.slots.resp.code == 404 && res.events.contains .handler
+     | .error _ => false) = true := by decide +kernel
+
 end NonVacuity
 
 end Ombott.Router
